@@ -8,6 +8,8 @@
 //!              | (scope ID NODE ...) create_child_scope, handle ID
 //!              | (task T N)          create_suspense_task: N chained awaits (gates), then done
 //!              | (spawn T N)         spawn_local_scoped: the same body without a suspense guard
+//!              | (res T N)           create_isomorphic_resource whose fetch is the same body, read once while loading (the read
+//!                                    registers a guard with the enclosing boundary; the guards live in a signal of the scope)
 //!   SCHEDULE ::= ((go T) | (dispose ID) ...)
 //! stdout per scenario: one line per step (step 0 = after construction):
 //!   `log <events> ; load <ID>=<0|1|dead> ... ; n <tasks_remaining per sus ID>` ; events: `poll:T:i`, `done:T`, `PANIC:<msg>`
@@ -104,6 +106,28 @@ fn build(nodes: &[Sx], w: &Rc<RefCell<World>>) {
                 } else {
                     spawn_local_scoped(body);
                 }
+            }
+            "res" => {
+                let t: u32 = l[1].num();
+                let n: u32 = l[2].num();
+                let mut senders = Vec::new();
+                let mut receivers = Vec::new();
+                for _ in 0..n {
+                    let (tx, rx) = oneshot::channel::<()>();
+                    senders.push(tx);
+                    receivers.push(rx);
+                }
+                w.borrow_mut().gates.insert(t, senders);
+                let mut body = Some(Box::pin(async move {
+                    for (i, rx) in receivers.into_iter().enumerate() {
+                        let _ = Logged { inner: Box::pin(rx), tag: format!("poll:{t}:{i}") }.await;
+                    }
+                    log(format!("done:{t}"));
+                    t
+                }) as Pin<Box<dyn Future<Output = u32>>>);
+                // no dependencies: the fetch function is called exactly once
+                let r = sycamore_web::create_isomorphic_resource(move || body.take().expect("fetched once"));
+                let _ = r.get_clone();
             }
             x => panic!("bad node {x}"),
         }
